@@ -56,3 +56,18 @@ package goja
 //@   ensures forall k int :: specIsUStr(result) && 0 <= k && k < end-start ==> specAsUStr(result)[k+1] == s[start+1+k] [unicode-form-has-the-units]
 //@   ensures specIsAStr(result) ==> len(specAsAStr(result)) == end-start [ascii-form-has-length]
 //@   ensures forall k int :: specIsAStr(result) && 0 <= k && k < end-start ==> s[start+1+k] < 128 && uint16(specAsAStr(result)[k]) == s[start+1+k] [ascii-form-only-when-all-ascii]
+
+// The UTF-16 builder chooses the representation of its result: the ASCII form is legal only if no unit
+// >= 0x80 was written, so every write of such a unit must mark the buffer (C06: a string's identity is
+// its code units - "\u0080" stored as ASCII bytes is a different key than the same unit stored as UTF-16).
+//@ func (*unicodeStringBuilder).writeRuneFast
+//@   props C06
+//@   requires b != nil
+//@   ensures old(b.unicode) ==> b.unicode [stays-marked]
+//@   ensures r >= 0x80 ==> b.unicode [a-non-ascii-unit-marks-the-buffer]
+//@   ensures r >= 0 && r <= 0xFFFF ==> len(b.buf) == old(len(b.buf))+1 && b.buf[len(b.buf)-1] == uint16(r) [one-unit-appended]
+
+//@ func (*unicodeStringBuilder).writeUnicodeString
+//@   props C06
+//@   requires b != nil
+//@   ensures b.unicode [a-utf16-string-marks-the-buffer]
